@@ -183,6 +183,11 @@ func (rr *renderer) renderList(f *fileBuf, dirs []*Dir, depth int) {
 			rr.out.Pos[d.ID] = Pos{File: f.name, Line: f.line, Index: kb, Chain: f.chain}
 			line := f.line
 			rr.eol(f)
+			if rr.files[d.IncludeFile] != nil {
+				// the same piece included again: the file is written once
+				rr.out.Features["include-reused"]++
+				continue
+			}
 			g := rr.file(d.IncludeFile)
 			saved := g.chain
 			g.chain = append([]ChainLink{{f.name, line}}, f.chain...)
